@@ -1,0 +1,32 @@
+//go:build verif
+// +build verif
+
+package log
+
+// Verification hooks, instrumented build (build tag "verif"). Each hook
+// dispatches to a function variable that a verification harness may set;
+// unset hooks do nothing.
+
+var verifHooks struct {
+	point     func(name string, s *segment)
+	segClosed func(s *segment)
+	segGet    func(s *segment)
+}
+
+func verifPoint(name string, s *segment) {
+	if h := verifHooks.point; h != nil {
+		h(name, s)
+	}
+}
+
+func verifSegClosed(s *segment) {
+	if h := verifHooks.segClosed; h != nil {
+		h(s)
+	}
+}
+
+func verifSegGet(s *segment) {
+	if h := verifHooks.segGet; h != nil {
+		h(s)
+	}
+}
